@@ -59,7 +59,17 @@ pub fn main_for(prop: &'static str, run: fn(&Ctx), child: Option<fn(&[String]) -
         .unwrap_or(0);
     let threads: usize = std::env::var("VERIF_THREADS").ok().and_then(|s| s.parse().ok()).unwrap_or(16);
     rayon::ThreadPoolBuilder::new().num_threads(threads).stack_size(16 << 20).build_global().ok();
-    let ctx = Ctx::new(prop, tier, seed, replay);
-    run(&ctx);
+    // the thorough tier repeats the seed-driven workload in further rounds with derived seeds
+    // (VERIF_ROUNDS overrides; a replay is one round with the recorded seed)
+    let rounds: u64 = if replay.is_some() {
+        1
+    } else {
+        std::env::var("VERIF_ROUNDS").ok().and_then(|s| s.parse().ok()).unwrap_or(if tier == Tier::Thorough { 3 } else { 1 })
+    };
+    let mut ctx = Ctx::new(prop, tier, seed, replay);
+    for r in 0..rounds.max(1) {
+        ctx.set_round(r);
+        run(&ctx);
+    }
     std::process::exit(ctx.finish());
 }
